@@ -364,6 +364,9 @@ class NoteContainer(object):
 
     def __eq__(self, other):
         """Enable the '==' operator for NoteContainer instances."""
+        if other is None:
+            # a rest: Bars store None where no notes are played
+            return False
         if len(self) != len(other):
             return False
         for x in self:
